@@ -59,6 +59,15 @@ def run(c):
     for m, (base, singles) in singles_by_message(gen).items():      # every optional element present, then one more / one cut short
         for v in full_plus_inputs(base, singles, unknown_octet(m)):
             cases.append(dict(k="dec", entry="plain", inp=v))
+    for t in TABLES:                                                  # every value (spare bits included) of every half-octet element
+        if t["family"] == "ENV": continue
+        halves = [s_ for s_ in t["slots"] if not s_["mand"] and s_["half"]]
+        if not halves: continue
+        base = plain_minimal(t["name"])
+        for s_ in halves:
+            for v in range(16):
+                cases.append(dict(k="dec", entry="plain", inp=base + [s_["iei"] * 16 + v]))
+        cases.append(dict(k="dec", entry="plain", inp=base + [s_["iei"] * 16 + 15 - k for k, s_ in enumerate(halves)]))
     for t in TABLES:                                                  # out-of-bounds declared lengths with the content present
         if t["family"] == "ENV": continue
         for v in oob_full_inputs(t["name"]):
